@@ -61,14 +61,17 @@ CLAIMED.update({
         "Theorems (Properties/C02.v): every executed transition is exactly the chain validators, conditions, "
         "before, exit(source) unless internal, on, THE assignment, enter(target) unless internal, after, each group "
         "starting where the previous ended, the first five called with state=source and the last two with "
-        "state=target; the stored state is untouched until the assignment and is the target after it (RTC); a "
+        "state=target; the stored state is untouched until the assignment and is the target after it (RTC, callbacks "
+        "that do not assign the state themselves: no_writes); for callbacks that do (the low-level API, AWrite in the "
+        "model) the engine's assignment after `on` is unconditional - the second half starts from the target whatever "
+        "was stored, internal transitions included; a "
         "rejected candidate runs validators and conditions only; event-named callbacks are admitted iff the trigger "
         "is their event; every admitted callback of a group is called exactly once and every call of the group is "
         "an admitted callback; every callback of the first five groups reads the source as current state and every "
         "callback of enter / after the target; initial activation is the start state's enter group only. " + ENG_TIE + "Compared: the order of callback invocations group by group, the injected event / "
         "source / target / state and the current state read inside callbacks.",
         "Coq proof (activation sequence theorem, frame lemmas) + differential correspondence",
-        "DESIGN.md 5 C02", "Also generated: listeners attached later with add_listener (incl. a targeted family: a two-event transition fires, a listener with event-named callbacks is attached, the transition fires through the other event), coroutines that really suspend with a phase-overlap assertion."),
+        "DESIGN.md 5 C02", "Also generated: listeners attached later with add_listener (incl. a targeted family: a two-event transition fires, a listener with event-named callbacks is attached, the transition fires through the other event), coroutines that really suspend with a phase-overlap assertion; callbacks of every group that assign the state through current_state_value (both engines), with a family of small machines with internal transitions."),
     "C03": (
         "Theorems (Properties/C03.v): while the lock is held a send from any callback only appends to the queue and "
         "returns None; therefore the faithful engine equals the documented flat engine (refinement, all machines / "
@@ -332,11 +335,13 @@ CLAIMED["C06"] = (
     "or have one of the concurrently sent events refused (waiting events are dropped, the engine ends idle, a "
     "later send is processed), and a thread scenario keeps a second, unrelated machine busy inside a callback "
     "meanwhile (its lock must not matter); thread scenarios in which the callbacks of one event fail (every "
-    "preemption point of the failing sender x several lengths of the other, plus random schedules).",
+    "preemption point of the failing sender x several lengths of the other, plus random schedules), their steps "
+    "replayed in the model with failing callbacks (Impl/ConcFail.v: same events begun by the same threads), a family "
+    "of them with preemption points between the bytecode instructions of BaseEngine.put (f_trace_opcodes).",
     "Coq proof (protocol invariants by induction over schedules, all senders / plans / schedules) + schedule-controlled differential correspondence (sys.settrace scheduler)",
     "DESIGN.md 5 C06",
     "Partial: the theorem is about the protocol at source-line granularity; preemption inside one source line "
-    "(bytecode level), the atomicity of deque.append / popleft and Lock.acquire under the GIL, and asyncio's own "
+    "(bytecode level; explored by the correspondence inside BaseEngine.put only), the atomicity of deque.append / popleft and Lock.acquire under the GIL, and asyncio's own "
     "scheduler are trusted.  Two genuine defects repaired (fix: f9a2952 event stranded by the race before the "
     "release; fix: 894918f event stranded when a callback fails), both reproduced on the real engine by the scheduler.")
 
